@@ -5,6 +5,9 @@ import (
 	"encoding/xml"
 	"fmt"
 	"github.com/yuin/goldmark"
+	"github.com/yuin/goldmark/extension"
+	"github.com/yuin/goldmark/renderer/html"
+	"github.com/yuin/goldmark/util"
 	"io"
 	"sort"
 	"strings"
@@ -204,6 +207,7 @@ type mdT struct {
 }
 
 func runC03(c *Ctx) {
+	attrFilterProbe(c)
 	if c.Quick() {
 		attrCases(c, 3000)
 	} else {
@@ -230,4 +234,89 @@ func runC03(c *Ctx) {
 			}
 		}
 	})
+}
+
+// attrFilterProbe: the attribute allow-lists must not contain a name outside the declared
+// vocabulary.  Candidates are near misses of the declared names: the first three bytes replaced
+// by bytes that occur at the same position in other declared names (what a prefix bitmap cannot
+// tell apart), one byte changed, dropped or added.  A candidate that some filter accepts is
+// rendered through a heading attribute block and reported with that document.
+func attrFilterProbe(c *Ctx) {
+	universe := map[string]bool{}
+	for a := range vocabAttrs {
+		universe[a] = true
+	}
+	var names []string
+	for a := range universe {
+		names = append(names, a)
+	}
+	sort.Strings(names)
+	var pos [3]map[byte]bool
+	for i := range pos {
+		pos[i] = map[byte]bool{}
+	}
+	for _, n := range names {
+		for i := 0; i < 3 && i < len(n); i++ {
+			pos[i][n[i]] = true
+		}
+	}
+	filters := []struct {
+		name string
+		f    util.BytesFilter
+		doc  string
+	}{
+		{"global", html.GlobalAttributeFilter, "# h {%s=\"v\"}\n"}, {"heading", html.HeadingAttributeFilter, "# h {%s=\"v\"}\n"}, {"blockquote", html.BlockquoteAttributeFilter, ""},
+		{"list", html.ListAttributeFilter, ""}, {"listitem", html.ListItemAttributeFilter, ""}, {"thematic", html.ThematicAttributeFilter, ""}, {"link", html.LinkAttributeFilter, ""},
+		{"image", html.ImageAttributeFilter, ""}, {"paragraph", html.ParagraphAttributeFilter, ""}, {"code", html.CodeAttributeFilter, ""}, {"emphasis", html.EmphasisAttributeFilter, ""},
+		{"table", extension.TableAttributeFilter, ""}, {"thead", extension.TableHeaderAttributeFilter, ""}, {"tr", extension.TableRowAttributeFilter, ""},
+		{"th", extension.TableThCellAttributeFilter, ""}, {"td", extension.TableTdCellAttributeFilter, ""}, {"del", extension.StrikethroughAttributeFilter, ""},
+		{"dl", extension.DefinitionListAttributeFilter, ""}, {"dt", extension.DefinitionTermAttributeFilter, ""}, {"dd", extension.DefinitionDescriptionAttributeFilter, ""},
+	}
+	md := Cfg{Ext: "core", Attr: true}.Build()
+	tried, reported := 0, 0
+	try := func(cand string) {
+		if universe[cand] || cand == "" || strings.HasPrefix(cand, "data-") {
+			return
+		}
+		tried++
+		for _, f := range filters {
+			if f.f.Contains([]byte(cand)) {
+				if reported < 5 {
+					reported++
+					doc := fmt.Sprintf("# h {%s=\"v\"}\n", cand)
+					out, _, _ := convertSafe(md, []byte(doc))
+					c.Violate("attribute-filter-accepts-undeclared-name", map[string]interface{}{"config": "core+attr", "source": q([]byte(doc)), "filter": f.name, "name": cand},
+						fmt.Sprintf("the %s attribute filter contains %q, which is not a declared attribute name; the heading renders as %.200q", f.name, cand, out), "attribute-filter-accepts-undeclared-name")
+				}
+				return
+			}
+		}
+	}
+	alpha := "abcdefghijklmnopqrstuvwxyz-"
+	for _, n := range names {
+		if len(n) >= 3 {
+			for a := range pos[0] {
+				for b := range pos[1] {
+					for d := range pos[2] {
+						try(string([]byte{a, b, d}) + n[3:])
+					}
+				}
+			}
+		}
+		for i := 0; i < len(n); i++ {
+			try(n[:i] + n[i+1:])
+			for k := 0; k < len(alpha); k++ {
+				try(n[:i] + alpha[k:k+1] + n[i+1:])
+				try(n[:i] + alpha[k:k+1] + n[i:])
+			}
+		}
+		try(n + "x")
+		try("on" + n)
+		try(strings.ToUpper(n))
+	}
+	for _, n := range []string{"onclick", "onerror", "onload", "onmouseover", "onfocus", "srcdoc", "formaction", "xmlns", "action", "background", "x", "a:b", "_y", "data", "data_"} {
+		try(n)
+	}
+	c.Rep.Extra["attribute_filter_probe_candidates"] = tried
+	c.Count("attribute-filter-probe", "probe", true)
 }
